@@ -41,7 +41,9 @@ NAME_CLASSES = {
         "n1": " n1", "n2": "n2 ", "n3": " n3 ", "n4": "n4", "n5": "n5 ", "n6": " n6",
     },
     # user-given internal names that look like the names TreeBuilder generates for unnamed nodes
-    "edgelike": {"n1": "edge.0", "n2": "edge.0.1", "n3": "edge.1", "n4": "edge", "n5": "edge.0.2", "n6": "edge.2"},
+    "edgelike": {"n1": "edge.0", "n2": "edge.0.1", "n3": "edge.1", "n4": "edge.2", "n5": "edge.0.2", "n6": "edge.1.1"},
+    # the bare word TreeBuilder counts unnamed nodes under, as a tip name
+    "reserved": {"b": "edge"},
     # internal names left to the newick parser (the tree is parsed from the text without internal labels)
     "auto": {},
 }
@@ -50,7 +52,7 @@ NAME_CLASSES = {
 TWIN_CLASSES = {"edgelike", "auto"}
 HAS_BLANK = {"soft", "blank"}  # classes for which reading with underscore_unmunge=False is documented to differ
 # name classes exercised on the name-writing/reading calls only (the other calls never look at the text of a name)
-RT_ONLY_CLASSES = {"blank"}
+RT_ONLY_CLASSES = {"blank", "reserved"}
 RT_ACTS = {"Make", "NewickRT", "NewickNamesRT", "NewickDefaultRT", "DndRT", "JsonRT", "RichDictRT"}
 # the twin classes run on the name-writing calls and on the calls that create or look up internal nodes by name
 TWIN_ACTS = RT_ACTS | {"RootAtMidpoint", "RootedAt", "RootedWithTip"}
